@@ -19,8 +19,16 @@ mod c05;
 #[cfg(feature = "model")]
 mod c06;
 #[cfg(feature = "model")]
+mod c07;
+#[cfg(feature = "model")]
+mod c09;
+#[cfg(feature = "model")]
 mod c10;
 mod c11;
+#[cfg(feature = "model")]
+mod c12;
+#[cfg(feature = "model")]
+mod c13;
 mod c14;
 mod c16;
 mod c17;
@@ -52,8 +60,16 @@ fn main() {
         #[cfg(feature = "model")]
         "c06" => c06::run(&args),
         #[cfg(feature = "model")]
+        "c07" => c07::run(&args),
+        #[cfg(feature = "model")]
+        "c09" => c09::run(&args),
+        #[cfg(feature = "model")]
         "c10" => c10::run(&args),
         "c11" => c11::run(&args),
+        #[cfg(feature = "model")]
+        "c12" => c12::run(&args),
+        #[cfg(feature = "model")]
+        "c13" => c13::run(&args),
         "c14" => c14::run(&args),
         "c16" => c16::run(&args),
         "c17" => c17::run(&args),
